@@ -4,6 +4,12 @@ Explorer H: explicit-state breadth-first search over update sequences.  A state
 is (file bytes, model dict); every transition re-creates the file from the
 initial write and replays the history with the real update function, then checks
 all invariants; states are de-duplicated on the file bytes.
+
+A cell checks the state reached by the LAST step of its history: the states of
+the proper prefixes were checked by the cells of those prefixes (the search only
+expands from consistent states, and the replay is deterministic).  The initial
+files are produced once per worker process and kind/dict (the depth-0 cell
+always writes afresh and checks the write itself).
 """
 import hashlib
 
@@ -11,18 +17,34 @@ ID = "C16"
 LEVEL = "model_checking"
 FLAVOUR = "plain"
 TIMEOUT = 300
-RULE = ("BFS over histories: initial (file kind x initial key-value dict) then up to depth d update dicts from an "
-        "alphabet built so that every footer-size delta -20..+20, +-130, +-20000 occurs (achieved deltas are "
-        "recorded), plus add / remove(None) / remove-two / mixed / bytes-key / unicode operations; every "
-        "transition executes fastparquet.update_file_custom_metadata on the real file; states hashed by file bytes; "
-        "invariants evaluated in every state")
-ASSUMPTIONS = ["specpq validator is the independent reader", "local files only (the API is documented as local-only)"]
+RULE = ("BFS over histories: initial (file kind x initial key-value dict) then up to depth d operations. File kinds: "
+        "fastparquet data files with 1 / 2 row groups, a hive _metadata file, (reduced alphabet:) the _common_metadata "
+        "file, a data file named x_metadata updated with is_metadata_file=False, a 2-row-group gzip file of 9 column "
+        "kinds with a named index, two files of a foreign writer (specpq: version 2, foreign created_by, without any / "
+        "with key-value metadata and without a pandas key); depth 0 only: frames carrying attrs. Initial dicts: empty, "
+        "ascii, unicode, bytes, empty value, 70 kB value, empty key, 21 keys. Operations: update dicts built so that "
+        "every footer-size delta -20..+20, +-130, +-20000 occurs (achieved deltas are recorded), add / remove(None) / "
+        "remove-two / mixed / bytes-key / unicode / empty-string and empty-bytes values / updates addressing a "
+        "non-ASCII key, a str-written key through bytes and a bytes-written key through str / keys and values that "
+        "are not UTF-8; an append of the frame between updates (custom_metadata given and documented as ignored); on "
+        "_metadata the object-level util.update_custom_metadata + _write_common_metadata. Every update executes "
+        "fastparquet.update_file_custom_metadata on the real file; states hashed by file bytes; invariants evaluated "
+        "in every state, and in every state four update dicts with a non-str/bytes key or value must be rejected "
+        "with TypeError leaving the file byte-identical")
+ASSUMPTIONS = ["specpq validator is the independent reader", "local files only (the API is documented as local-only)",
+               "the initial write is deterministic (same bytes in every worker process)"]
 
 FILL = "abcdefghijklmnopqrstuvwxyz0123456789"
 
 
 def val(n, seed=0):
     return "".join(FILL[(i + seed) % 36] for i in range(n))
+
+
+def _many():
+    d = {"k%02d" % i: "v%d" % i for i in range(20)}
+    d["a"] = val(40)
+    return d
 
 
 INITIALS = {
@@ -33,11 +55,28 @@ INITIALS = {
     "emptyval": {"e": "", "a": val(40)},
     "large": {"big": val(70000), "a": val(40)},
     "emptykey": {"": "under the empty key", "a": val(40)},
+    "many": _many(),                # 21 + pandas entries: the compact list header needs its long form (>= 15)
 }
 KINDS = ["data1", "data2", "meta"]
+# further kinds, each with one initial dict and the reduced alphabet
+EXTRA_ROOTS = [("foreign_nokv", "empty"), ("foreign_kv", "ascii"), ("rich1", "ascii"), ("meta_common", "ascii"),
+               ("named", "ascii")]
+# frames with attrs: the write itself is the subject (depth 0; expanded in the thorough tier)
+ATTRS_ROOTS = [("data1_attrs", "empty"), ("data1_attrs", "ascii"), ("meta_attrs", "ascii")]
+ATTRS = {"oi": 5, "name": "é"}
+META_KINDS = ("meta", "meta_common", "meta_attrs")       # the file under test is a footer-only file
+FOREIGN_KV = [("a", val(40)), ("b", "x")]
+
+# update dicts that must be refused (TypeError) and leave the file as it is; probed in every state
+REJECTS = [
+    ("int_value", {"a": 5}),
+    ("int_key", {5: "v"}),
+    ("valid_then_float", {"a": val(33, 1), "b": 1.0}),      # a valid shrinking entry first
+    ("dict_value", {"n1": {}}),
+]
 
 
-def operations(full):
+def operations(full, level=1, tier="quick"):
     ops = []
     if full:
         for n in range(20, 61):
@@ -57,7 +96,29 @@ def operations(full):
     ops.append({"big": "s"})                                   # shrink a large value
     ops.append({"": "e1"})                                     # add / replace the empty key
     ops.append({"": None, "b": "y"})                           # remove the empty key, add another
+    # empty values are values, not removals
+    ops.append({"a": ""})                                      # replace by the empty string
+    ops.append({"n4": ""})                                     # add an empty string
+    ops.append({"b": b""})                                     # add / replace by empty bytes
+    # key identity across encodings
+    ops.append({"clé": "x"})                                   # add / replace under a non-ASCII key
+    ops.append({"clé": None})                                  # remove a non-ASCII key
+    ops.append({b"a": b"q"})                                   # a str-written key addressed through bytes
+    ops.append({"bk": None})                                   # a bytes-written key addressed through str
+    ops.append({b"\xff\xfe": b"\xe2\x00"})                     # key and value that are not UTF-8
+    ops.append({b"\xff\xfe": None, "a": b"\xe2"})              # remove it; a str key with a non-UTF-8 value
     return ops
+
+
+def pseudo_ops(kind):
+    """history entries that are not plain update dicts"""
+    out = []
+    if kind in ("data1", "data2", "meta", "rich1"):
+        out.append({"op": "append"})
+    if kind == "meta":
+        out.append({"op": "obj", "upd": _enc({"a": None, "b": None, "n2": "w" * 7})})
+        out.append({"op": "obj", "upd": _enc({"a": val(33, 1), "n4": ""})})
+    return out
 
 
 def _enc(d):
@@ -78,22 +139,51 @@ def _dec(lst):
     return d
 
 
+def roots(tier):
+    out = []
+    for kind in KINDS:
+        for name in INITIALS:
+            full = (kind, name) in (("data1", "ascii"), ("meta", "ascii")) or tier == "thorough"
+            out.append({"kind": kind, "init": name, "hist": [], "full": full})
+    for kind, name in EXTRA_ROOTS:
+        out.append({"kind": kind, "init": name, "hist": [], "full": False})
+    for kind, name in ATTRS_ROOTS:
+        out.append({"kind": kind, "init": name, "hist": [], "full": False, "leaf": tier != "thorough"})
+    return out
+
+
+_SUCC = {}
+
+
+def successors(point, tier):
+    """history entries to try from the state reached by point (the bounded space of the tier)"""
+    dep = len(point["hist"])
+    depth = 3 if tier == "thorough" else 2
+    if dep >= depth or point.get("leaf"):
+        return []
+    # deeper levels use the reduced alphabet unless thorough
+    full = point["full"] and (dep == 0 or tier == "thorough")
+    key = (full, point["kind"])
+    if key not in _SUCC:
+        # built once: the histories of the work list share these objects (one 20 kB value, not one per state)
+        _SUCC[key] = [_enc(op) for op in operations(full)] + pseudo_ops(point["kind"])
+    return _SUCC[key]
+
+
 def explore(run, tier):
     depth = 3 if tier == "thorough" else 2
     seen = {}
     states = [0]
     transitions = [0]
     deltas = set()
-    initial = []
-    for kind in KINDS:
-        for name in INITIALS:
-            full = (kind, name) in (("data1", "ascii"), ("meta", "ascii")) or tier == "thorough"
-            initial.append({"kind": kind, "init": name, "hist": [], "full": full})
+    probes = [0]
+    initial = roots(tier)
 
     def on_result(point, res, submit):
         if res.get("outcome") in ("crash", "timeout", "harness_error"):
             return
         transitions[0] += 1 if point["hist"] else 0
+        probes[0] += (res.get("counts") or {}).get("rejected_probes", 0)
         for d in res.get("deltas", []):
             deltas.add(d)
         key = res.get("state")
@@ -105,13 +195,9 @@ def explore(run, tier):
         if key not in seen:
             states[0] += 1
         seen[key] = dep
-        if dep >= depth:
-            return
-        # deeper levels use the reduced alphabet unless thorough
-        full = point["full"] and (len(point["hist"]) == 0 or tier == "thorough")
-        for op in operations(full):
+        for h in successors(point, tier):
             q = dict(point)
-            q["hist"] = point["hist"] + [_enc(op)]
+            q["hist"] = point["hist"] + [h]
             submit(q)
     run.dynamic("kv-histories", initial, "run", on_result)
     run.extra["states"] = states[0]
@@ -119,6 +205,7 @@ def explore(run, tier):
     run.extra["traces_validated_against_impl"] = transitions[0]
     run.extra["depth"] = depth
     run.extra["footer_deltas_achieved"] = sorted(deltas)
+    run.extra["rejected_update_probes"] = probes[0]
 
 
 def crash_sig(point, res):
@@ -126,54 +213,196 @@ def crash_sig(point, res):
 
 
 # ------------------------------------------------------------------------- worker side
-def _frame():
+def _frame(kind="data1"):
     import pandas as pd
-    return pd.DataFrame({"x": [1, 2, 3, 4], "s": ["a", "b", None, "d"]})
+    if kind == "rich1":
+        import numpy as np
+        return pd.DataFrame({
+            "x": [1, 2, 3, 4, 5, 6], "s": ["a", "b", None, "d", "", "é"],
+            "i": np.arange(6, dtype="int32"), "f": [1.5, np.nan, 3, 4, 5, 6],
+            "c": pd.Categorical(["u", "v", "u", None, "v", "u"]),
+            "t": pd.date_range("2020-01-01", periods=6, tz="Europe/Paris"),
+            "b": [b"\xff\x00", b"a", None, b"zz", b"", b"q"],
+            "n": pd.array([1, None, 3, 4, 5, 6], dtype="Int64"),
+            "d": pd.to_timedelta([1, 2, 3, 4, 5, 6], unit="s"),
+        }, index=pd.Index(list("abcdef"), name="idx"))
+    df = pd.DataFrame({"x": [1, 2, 3, 4], "s": ["a", "b", None, "d"]})
+    if kind.endswith("_attrs"):
+        df.attrs = dict(ATTRS)
+    return df
+
+
+def _foreign(kind):
+    from mc.specpq import writer as W
+    spec = {"created_by": "parquet-mr version 1.12.0 (build abc)", "version": 2,
+            "kv": FOREIGN_KV if kind == "foreign_kv" else None,
+            "columns": [{"name": "x", "ptype": 2, "rep": "required"},
+                        {"name": "s", "ptype": 6, "rep": "optional", "lt": {"STRING": {}}, "ct": 0}],
+            "row_groups": [{"x": {"rows": [1, 2, 3, 4], "codec": 0},
+                            "s": {"rows": [b"a", b"b", None, b"d"], "codec": 0}}]}
+    return W.write_file(spec)
+
+
+def _target(kind, d):
+    """-> (path of the file under test, what ParquetFile opens for the data, what an append writes to)"""
+    import os
+    if kind in META_KINDS:
+        dn = os.path.join(d, "ds")
+        return os.path.join(dn, "_common_metadata" if kind == "meta_common" else "_metadata"), dn, dn
+    p = os.path.join(d, "x_metadata" if kind == "named" else "f.parquet")
+    return p, p, p
+
+
+def _update_kwargs(kind):
+    return {"is_metadata_file": False} if kind == "named" else {}
 
 
 def build(kind, init, d):
-    """create the initial file; returns path of the file under test"""
+    """create the initial file(s) with the library (or the foreign writer); returns (path, given, passed):
+    the dict that was given and the dict object that was passed to write() (to see whether it was changed)"""
     import os
     import fastparquet
-    df = _frame()
+    path, _, wr = _target(kind, d)
+    if kind.startswith("foreign"):
+        with open(path, "wb") as f:
+            f.write(_foreign(kind))
+        return path, None, None
+    df = _frame(kind)
     cm = dict(INITIALS[init])
-    if kind in ("data1", "data2"):
-        path = os.path.join(d, "f.parquet")
-        fastparquet.write(path, df, custom_metadata=cm or None,
+    given = dict(cm)
+    passed = cm or None
+    if kind in META_KINDS:
+        fastparquet.write(wr, df, file_scheme="hive", custom_metadata=passed, row_group_offsets=[0, 2])
+    elif kind == "rich1":
+        fastparquet.write(path, df, custom_metadata=passed, row_group_offsets=[0, 3], compression="GZIP", stats=True)
+    else:
+        fastparquet.write(path, df, custom_metadata=passed,
                           row_group_offsets=[0, 2] if kind == "data2" else None)
-        return path
-    dn = os.path.join(d, "ds")
-    fastparquet.write(dn, df, file_scheme="hive", custom_metadata=cm or None, row_group_offsets=[0, 2])
-    return os.path.join(dn, "_metadata")
+    return path, given, cm
+
+
+def _norm(x):
+    """stored key / value as every reader reports it: text when it is UTF-8, else the bytes"""
+    if isinstance(x, bytes):
+        try:
+            return x.decode("utf8")
+        except UnicodeDecodeError:
+            return x
+    return x
 
 
 def model_apply(model, upd):
     for k, v in upd.items():
-        ks = k.decode() if isinstance(k, bytes) else k
+        ks = _norm(k)
         if v is None:
             model.pop(ks, None)
         else:
-            model[ks] = v.decode() if isinstance(v, bytes) else v
+            model[ks] = _norm(v)        # an existing key keeps its place, a new one goes to the end
+
+
+def initial_model(kind, init):
+    import json
+    model = {}
+    if kind == "foreign_kv":
+        model_apply(model, dict(FOREIGN_KV))
+    elif not kind.startswith("foreign"):
+        model_apply(model, INITIALS[init])
+    if kind.endswith("_attrs"):
+        model["PANDAS_ATTRS"] = json.dumps(ATTRS)
+    return model
+
+
+def _rows(pf):
+    from mc import oracles as O
+    df = pf.to_pandas()
+    out = [[str(c) for c in df.columns], O.series_to_list(df.index)]
+    for c in df.columns:
+        out.append(O.series_to_list(df[c]))
+    return out
+
+
+def _pf(kind, opened, **kw):
+    """ParquetFile of the data; the library takes every path ending in _metadata for a footer-only file, so the
+    data file of that name is handed over as a file-like object"""
+    import fastparquet
+    if kind == "named":
+        import io
+        with open(opened, "rb") as f:
+            return fastparquet.ParquetFile(io.BytesIO(f.read()), **kw)
+    return fastparquet.ParquetFile(opened, **kw)
+
+
+def _kv_of(fmd):
+    """ordered [(key, value)] of a parsed footer; None when a key is stored twice"""
+    out = []
+    for e in fmd.get("key_value_metadata") or []:
+        out.append((_norm(e["key"]), _norm(e.get("value"))))
+    return out
+
+
+class _Base(object):
+    pass
+
+
+_BASES = {}
+
+
+def _snapshot(d):
+    import os
+    files = {}
+    for root, _, names in os.walk(d):
+        for n in names:
+            p = os.path.join(root, n)
+            with open(p, "rb") as f:
+                files[os.path.relpath(p, d)] = f.read()
+    return files
+
+
+def _baseline(b, kind, path, opened):
+    """what must stay as it is: everything of the footer but the key-value list, the bytes before the footer,
+    the rows"""
+    import fastparquet
+    from mc.specpq import file as F
+    with open(path, "rb") as f:
+        b.data0 = f.read()
+    p0 = F.read_footer(b.data0)
+    b.fs0 = p0.footer_start
+    b.flen0 = p0.footer_len
+    b.fmd0 = {k: v for k, v in p0.fmd.items() if k != "key_value_metadata"}
+    b.pandas_kv0 = [kv.get("value") for kv in (p0.fmd.get("key_value_metadata") or []) if kv["key"] == "pandas"]
+    b.rows0 = _rows(_pf(kind, opened))
+
+
+def _materialise(kind, init, d, fresh):
+    """the initial file(s) in d; returns (base, path, given, passed)"""
+    import os
+    key = (kind, init)
+    if not fresh and key in _BASES:
+        b = _BASES[key]
+        for rel, content in b.files.items():
+            p = os.path.join(d, rel)
+            os.makedirs(os.path.dirname(p), exist_ok=True)
+            with open(p, "wb") as f:
+                f.write(content)
+        return b, _target(kind, d)[0], None, None
+    path, given, passed = build(kind, init, d)
+    b = _Base()
+    b.files = _snapshot(d)
+    _baseline(b, kind, path, _target(kind, d)[1])
+    _BASES[key] = b
+    return b, path, given, passed
 
 
 def run(point):
     import os
     import fastparquet
+    from fastparquet.util import update_custom_metadata
     from mc.scratch import scratch
     from mc.specpq import file as F
-    from mc import oracles as O
     d = scratch()
     kind = point["kind"]
-    path = build(kind, point["init"], d)
-    model = {}
-    model_apply(model, INITIALS[point["init"]])
-    data0 = open(path, "rb").read()
-    p0 = F.read_footer(data0)
-    fs0 = p0.footer_start
-    schema0, rgs0 = p0.fmd["schema"], p0.fmd["row_groups"]
-    pf0 = fastparquet.ParquetFile(path if kind != "meta" else os.path.dirname(path))
-    rows0 = [O.series_to_list(pf0.to_pandas()[c]) for c in ("x", "s")]
-    pandas_kv0 = [kv.get("value") for kv in (p0.fmd.get("key_value_metadata") or []) if kv["key"] == "pandas"]
+    init = point["init"]
+    hist = point["hist"]
     deltas = []
     sig = {"kind": kind}
 
@@ -184,84 +413,252 @@ def run(point):
         return {"ok": False, "outcome": symptom, "nontrivial": True, "sig": s, "detail": detail,
                 "deltas": deltas}
 
-    prev_len = p0.footer_len
-    last_delta = 0
-    for i, enc in enumerate(point["hist"]):
-        upd = _dec(enc)
-        try:
-            fastparquet.update_file_custom_metadata(path, upd)
-        except Exception as e:
-            return bad("update_raised", "update %d %r raised %s: %s" % (i, _short(upd), type(e).__name__, e),
-                       exc=type(e).__name__)
-        model_apply(model, upd)
-        data = open(path, "rb").read()
-        try:
-            flen = int.from_bytes(data[-8:-4], "little")
-        except Exception:
-            flen = -1
-        last_delta = flen - prev_len
-        # the recorded delta is the one the implementation produced when the file is still parseable
-        step = {"delta_class": _dclass(last_delta), "step": i}
+    try:
+        base, path, given, passed = _materialise(kind, init, d, fresh=not hist)
+    except Exception as e:
+        return bad("write_raised", "initial write: %s: %s" % (type(e).__name__, e), exc=type(e).__name__)
+    _, opened, appendto = _target(kind, d)
+    kw = _update_kwargs(kind)
+    model = initial_model(kind, init)
+    # the current baseline (replaced by an append)
+    cur = _Base()
+    cur.data0, cur.fs0, cur.fmd0, cur.pandas_kv0, cur.rows0 = base.data0, base.fs0, base.fmd0, base.pandas_kv0, base.rows0
+    prev_len = base.flen0
+
+    def check_state(i, what, step):
+        """all invariants of the state on disk; returns a violation or None"""
+        with open(path, "rb") as f:
+            data = f.read()
         try:
             p = F.read_footer(data)
         except F.FormatError as e:
-            # classify by the footer size the update should have produced
-            want = _expected_delta(upd, model, prev_len)
-            return bad("file_invalid", "after update %d %r: independent reader: %s" % (i, _short(upd), e), **step)
-        deltas.append(last_delta)
-        prev_len = p.footer_len
-        if kind != "meta":
+            return bad("file_invalid", "after %s: independent reader: %s" % (what, e), **step)
+        if kind not in META_KINDS:
             try:
                 pv = F.read_file(data)
                 if pv.errors:
-                    return bad("file_invalid", "after update %d: validator: %s" % (i, pv.errors[:2]), **step)
+                    return bad("file_invalid", "after %s: validator: %s" % (what, pv.errors[:2]), **step)
             except F.FormatError as e:
-                return bad("file_invalid", "after update %d: %s" % (i, e), **step)
-            if data[:fs0] != data0[:fs0]:
-                return bad("data_bytes_changed", "bytes before the footer differ after update %d" % i, **step)
-            if p.footer_start != fs0:
-                return bad("footer_moved", "footer starts at %d, was %d" % (p.footer_start, fs0), **step)
+                return bad("file_invalid", "after %s: %s" % (what, e), **step)
+            if data[:cur.fs0] != cur.data0[:cur.fs0]:
+                return bad("data_bytes_changed", "bytes before the footer differ after %s" % what, **step)
+            if p.footer_start != cur.fs0:
+                return bad("footer_moved", "footer starts at %d, was %d" % (p.footer_start, cur.fs0), **step)
         else:
             if data[:4] != b"PAR1" or p.footer_start != 4:
-                return bad("file_invalid", "_metadata layout broken after update %d" % i, **step)
-        if p.fmd["schema"] != schema0 or p.fmd["row_groups"] != rgs0:
-            return bad("metadata_changed", "schema / row groups differ after update %d" % i, **step)
+                return bad("file_invalid", "_metadata layout broken after %s" % what, **step)
+        if p.fmd["schema"] != cur.fmd0["schema"] or p.fmd["row_groups"] != cur.fmd0["row_groups"]:
+            return bad("metadata_changed", "schema / row groups differ after %s" % what, **step)
+        rest = {k: v for k, v in p.fmd.items() if k != "key_value_metadata"}
+        if rest != cur.fmd0:
+            fields = sorted(k for k in set(rest) | set(cur.fmd0) if rest.get(k) != cur.fmd0.get(k))
+            return bad("metadata_changed", "footer fields %s differ after %s: %r, was %r"
+                       % (fields, what, _short_v(rest.get(fields[0])), _short_v(cur.fmd0.get(fields[0]))),
+                       field=fields[0], **step)
+        stored = _kv_of(p.fmd)
         kv = {}
-        for e in p.fmd.get("key_value_metadata") or []:
-            k = e["key"]
+        for k, v in stored:
             if k in kv:
-                return bad("duplicate_key", "key %r stored twice after update %d" % (k, i), **step)
-            kv[k if isinstance(k, str) else k.decode("utf8", "replace")] = e.get("value")
+                return bad("duplicate_key", "key %r stored twice after %s" % (k, what), **step)
+            kv[k] = v
         pk = kv.pop("pandas", None)
-        if [pk] != pandas_kv0 and pandas_kv0:
-            return bad("pandas_key_changed", "the pandas key changed after update %d" % i, **step)
-        want = {k: v for k, v in model.items()}
-        got = {k: (v if isinstance(v, str) else (v.decode("utf8", "replace") if v is not None else None)) for k, v in kv.items()}
-        if got != want:
-            return bad("kv_differs", "after update %d %r: stored %s, model %s" % (i, _short(upd), _short(got), _short(want)), **step)
+        if [pk] != [_norm(x) for x in cur.pandas_kv0] and cur.pandas_kv0:
+            return bad("pandas_key_changed", "the pandas key changed after %s" % what, **step)
+        want = dict(model)
+        if kv != want:
+            return bad("kv_differs", "after %s: stored %s, model %s" % (what, _short(kv), _short(want)), **step)
+        want_order = (["pandas"] if cur.pandas_kv0 else []) + list(model)
+        if [k for k, _ in stored] != want_order:
+            return bad("key_order_changed", "after %s: keys stored as %s, expected %s (a replaced key keeps its "
+                       "place, a new one goes to the end)" % (what, _short_l([k for k, _ in stored]),
+                                                              _short_l(want_order)), **step)
         try:
-            pf = fastparquet.ParquetFile(path if kind != "meta" else os.path.dirname(path), verify=True)
+            if kind == "meta_common":
+                # the rows come from the dataset, the key-value metadata from the file that was updated
+                pf = fastparquet.ParquetFile(path, verify=True)
+                pfd = fastparquet.ParquetFile(opened, verify=True)
+            else:
+                pf = pfd = _pf(kind, opened, verify=True)
             kvm = dict(pf.key_value_metadata)
             kvm.pop("pandas", None)
             if kvm != want:
                 return bad("kv_differs", "ParquetFile.key_value_metadata %s != model %s" % (_short(kvm), _short(want)),
                            via="api", **step)
-            rows = [O.series_to_list(pf.to_pandas()[c]) for c in ("x", "s")]
+            if list(kvm) != list(model):
+                return bad("key_order_changed", "ParquetFile.key_value_metadata lists %s, expected %s"
+                           % (_short_l(list(kvm)), _short_l(list(model))), via="api", **step)
+            rows = _rows(pfd)
         except Exception as e:
-            return bad("reopen_raised", "after update %d: %s: %s" % (i, type(e).__name__, e), **step)
-        if rows != rows0:
-            return bad("data_changed", "to_pandas() differs after update %d" % i, **step)
-    if not point["hist"]:
-        # write-time metadata must come back verbatim
-        pf = fastparquet.ParquetFile(path if kind != "meta" else os.path.dirname(path))
-        kvm = dict(pf.key_value_metadata)
-        kvm.pop("pandas", None)
-        if kvm != model:
-            return bad("kv_differs", "write-time metadata: read %s, given %s" % (_short(kvm), _short(model)), via="write")
-    data = open(path, "rb").read()
+            return bad("reopen_raised", "after %s: %s: %s" % (what, type(e).__name__, e), **step)
+        if rows != cur.rows0:
+            return bad("data_changed", "to_pandas() differs after %s" % what, **step)
+        return None
+
+    last_delta = 0
+    for i, enc in enumerate(hist):
+        last = i == len(hist) - 1
+        op = enc.get("op") if isinstance(enc, dict) else "update"
+        with open(path, "rb") as f:
+            before = f.read()
+        if op == "append":
+            what = "append %d" % i
+            step = {"step": i, "op": "append"}
+            try:
+                df = _frame(kind)
+                if kind in META_KINDS:
+                    fastparquet.write(appendto, df, file_scheme="hive", append=True,
+                                      custom_metadata={"ignored": "x"})
+                else:
+                    fastparquet.write(appendto, df, append=True, custom_metadata={"ignored": "x"})
+            except Exception as e:
+                return bad("append_raised", "%s raised %s: %s" % (what, type(e).__name__, e), exc=type(e).__name__,
+                           **step)
+            if kind not in META_KINDS:
+                with open(path, "rb") as f:
+                    data = f.read()
+                if data[:cur.fs0] != before[:cur.fs0]:
+                    return bad("data_bytes_changed", "the append changed bytes of the existing row groups", **step)
+            old_rows = cur.rows0
+            try:
+                _baseline(cur, kind, path, opened)
+            except Exception as e:
+                return bad("file_invalid", "after %s: %s: %s" % (what, type(e).__name__, e), **step)
+            if cur.rows0[2:] != [c + n for c, n in zip(old_rows[2:], base.rows0[2:])]:
+                return bad("data_changed", "rows after %s are not the old rows followed by the new ones" % what, **step)
+            prev_len = cur.flen0
+            if last:
+                r = check_state(i, what, step)
+                if r:
+                    return r
+            continue
+        if op == "obj":
+            upd = _dec(enc["upd"])
+            what = "object-level update %d %r + _write_common_metadata" % (i, _short(upd))
+            step = {"step": i, "op": "obj"}
+            try:
+                pf = fastparquet.ParquetFile(opened)
+                dict(pf.key_value_metadata)                   # fills the handle's cache
+                update_custom_metadata(pf, upd)
+                model_apply(model, upd)
+                kvm = dict(pf.key_value_metadata)
+                kvm.pop("pandas", None)
+                if kvm != model or list(kvm) != list(model):
+                    return bad("kv_differs", "handle after update_custom_metadata: %s, model %s"
+                               % (_short(kvm), _short(model)), via="handle", **step)
+                pf._write_common_metadata()
+            except Exception as e:
+                return bad("update_raised", "%s raised %s: %s" % (what, type(e).__name__, e), exc=type(e).__name__,
+                           **step)
+            if last:
+                # the side-car is written from the same handle: same keys
+                try:
+                    pc = F.read_footer(open(os.path.join(opened, "_common_metadata"), "rb").read())
+                except F.FormatError as e:
+                    return bad("file_invalid", "_common_metadata after %s: %s" % (what, e), **step)
+                got = [(k, v) for k, v in _kv_of(pc.fmd) if k != "pandas"]
+                if got != list(model.items()):
+                    return bad("kv_differs", "_common_metadata after %s: %s, model %s"
+                               % (what, _short(dict(got)), _short(model)), via="common", **step)
+        else:
+            upd = _dec(enc)
+            what = "update %d %r" % (i, _short(upd))
+            try:
+                fastparquet.update_file_custom_metadata(path, upd, **kw)
+            except Exception as e:
+                return bad("update_raised", "%s raised %s: %s" % (what, type(e).__name__, e), exc=type(e).__name__)
+            model_apply(model, upd)
+        with open(path, "rb") as f:
+            f.seek(-8, 2)
+            flen = int.from_bytes(f.read(4), "little")
+        last_delta = flen - prev_len
+        if op == "update":
+            step = {"delta_class": _dclass(last_delta), "step": i}
+        if last:
+            r = check_state(i, what, step)
+            if r:
+                return r
+        # the recorded delta is the one the implementation produced when the file is still parseable
+        deltas.append(last_delta)
+        prev_len = flen
+
+    if not hist:
+        r = _check_write(point, d, path, opened, given, passed, model, bad)
+        if r:
+            return r
+        r = check_state(-1, "the initial write", {"step": -1})
+        if r:
+            return r
+
+    # in the state reached: updates that must be refused leave the file as it is
+    with open(path, "rb") as f:
+        data = f.read()
+    nprobe = 0
+    for name, upd in REJECTS:
+        nprobe += 1
+        try:
+            fastparquet.update_file_custom_metadata(path, upd, **kw)
+            err = None
+        except TypeError:
+            err = "TypeError"
+        except Exception as e:
+            return bad("reject_wrong_error", "update %r raised %s: %s (TypeError expected)"
+                       % (upd, type(e).__name__, e), probe=name)
+        with open(path, "rb") as f:
+            after = f.read()
+        if err is None:
+            return bad("invalid_accepted", "update %r was not refused" % (upd,), probe=name)
+        if after != data:
+            return bad("rejected_update_changed_file", "update %r raised TypeError and the file changed "
+                       "(%d -> %d bytes)" % (upd, len(data), len(after)), probe=name)
     return {"ok": True, "outcome": "consistent", "nontrivial": True,
-            "state": hashlib.sha256(data).hexdigest(), "deltas": deltas,
-            "counts": {"updates": len(point["hist"])}}
+            "state": hashlib.sha256(kind.encode() + b"\0" + data).hexdigest(), "deltas": deltas,
+            "counts": {"updates": len(hist), "rejected_probes": nprobe}}
+
+
+def _check_write(point, d, path, opened, given, passed, model, bad):
+    """the write itself: metadata back verbatim from every file of the dataset, the caller's dict untouched,
+    invalid dicts refused"""
+    import os
+    import fastparquet
+    from mc.specpq import file as F
+    kind = point["kind"]
+    pf = _pf(kind, opened)
+    kvm = dict(pf.key_value_metadata)
+    kvm.pop("pandas", None)
+    if kvm != model:
+        return bad("kv_differs", "write-time metadata: read %s, given %s" % (_short(kvm), _short(model)), via="write")
+    if kind.startswith("foreign"):
+        return None
+    if kind.endswith("_attrs"):
+        got = pf.to_pandas().attrs
+        if got != ATTRS:
+            return bad("attrs_differ", "attrs read %r, written %r" % (got, ATTRS), via="write")
+    if passed is not None and (passed != given or list(passed) != list(given)):
+        return bad("caller_dict_mutated", "write() changed the custom_metadata dict it was given: now %s, was %s"
+                   % (_short(passed), _short(given)), via="write")
+    if kind in META_KINDS:
+        # every file of the dataset carries the metadata
+        for root, _, names in os.walk(opened):
+            for n in sorted(names):
+                if n == "_metadata" and kind != "meta_common" or n == "_common_metadata" and kind == "meta_common":
+                    continue
+                p = F.read_footer(open(os.path.join(root, n), "rb").read())
+                got = [(k, v) for k, v in _kv_of(p.fmd) if k != "pandas"]
+                if got != list(model.items()):
+                    return bad("kv_differs", "write-time metadata in %s: %s, given %s"
+                               % (n, _short(dict(got)), _short(model)), via="write", file=n.split(".")[0])
+    # invalid dicts are refused by write()
+    df = _frame(kind)
+    for name, cm in (("int_value", {"k": 5}), ("int_key", {5: "v"}), ("none_value", {"k": None})):
+        try:
+            fastparquet.write(os.path.join(d, "rejected.parquet"), df, custom_metadata=cm)
+        except TypeError:
+            continue
+        except Exception as e:
+            return bad("reject_wrong_error", "write(custom_metadata=%r) raised %s: %s (TypeError expected)"
+                       % (cm, type(e).__name__, e), probe=name, via="write")
+        return bad("invalid_accepted", "write(custom_metadata=%r) was not refused" % (cm,), probe=name, via="write")
+    return None
 
 
 def _dclass(d):
@@ -274,22 +671,37 @@ def _dclass(d):
     return "grow"
 
 
-def _expected_delta(upd, model, prev):
-    return None
+def _short_v(v):
+    s = repr(v)
+    return s if len(s) <= 60 else s[:57] + "..."
+
+
+def _short_l(keys):
+    return keys if len(keys) <= 8 else keys[:4] + ["..(%d).." % (len(keys) - 7)] + keys[-3:]
 
 
 def _short(d):
     out = {}
     for k, v in d.items():
         out[k] = v if v is None or len(v) <= 12 else "%s..(%d)" % (v[:6], len(v))
+    if len(out) > 8:
+        ks = list(out)
+        out = {k: out[k] for k in ks[:4] + ks[-3:]}
+        out["..more.."] = len(ks) - 7
     return out
 
 
-LEVEL_TEXT = ("Explicit-state BFS (depth 2 quick / 3 thorough) over update histories on real files (1- and 2-row-group "
-              "data files and a _metadata file) with an operation alphabet constructed to hit every footer-size delta "
-              "in -20..+20 and +-130 / +-20000; after every transition the file is re-parsed by an independent strict "
-              "reader and by ParquetFile(verify=True) and compared with a dict model; data bytes, schema and row "
-              "groups must be untouched.")
+LEVEL_TEXT = ("Explicit-state BFS (depth 2 quick / 3 thorough) over histories on real files (1- and 2-row-group data "
+              "files, _metadata, _common_metadata, a data file named *_metadata with is_metadata_file=False, a file of "
+              "nine column kinds, two files of a foreign writer without pandas key / without any key-value list) with "
+              "an operation alphabet constructed to hit every footer-size delta in -20..+20 and +-130 / +-20000, "
+              "empty values, keys addressed across str / bytes, non-UTF-8 bytes, interleaved appends and object-level "
+              "updates; after every transition the file is re-parsed by an independent strict reader and by "
+              "ParquetFile(verify=True) and compared with an ordered dict model (values and key order); data bytes "
+              "and every footer field other than the key-value list must be untouched; in every state invalid update "
+              "dicts must be refused leaving the file byte-identical; at depth 0 the write is checked (every file of "
+              "the dataset carries the metadata, attrs, caller's dict untouched, invalid dicts refused).")
 LEVEL_NOTE = ("Trusted: specpq footer/file validator, dict model. States are merged only when the whole file is "
-              "byte-identical, which is exact (same futures).")
+              "byte-identical, which is exact (same futures). A cell checks the state after its last step; prefixes "
+              "are checked by their own cells.")
 TECHNIQUE = "explicit-state BFS over update histories on the real file, dict reference model, strict independent re-parse"
